@@ -792,3 +792,26 @@ def r4_5(rep):
     rep.check(guarded_cg or guarded_parse, "var:mutable-global-emitted-as-const@Var::codegen",
               "a variable is emitted as `pub const NAME = value` whenever its initialiser could be evaluated, whether or not it is const: "
               "`int counter = 5;` loses its symbol and mutability", consts[0].loc())
+
+
+@RULES.rule("R4.6", "a function type has exactly the parameters its clang type reports (names may come from the cursor, never extra parameters)", floor=1)
+def r4_6(rep):
+    """`int (*get(int a, int b))(char);`: while the returned function-pointer type `int(char)` is built, the cursor at hand is still the
+    declaration of `get`; `args_from_ty_and_cursor` pairs cursor arguments with type arguments and keeps going while EITHER side has
+    one, so the returned type becomes `fn(a: c_char, b: c_int) -> c_int` — an extra parameter, not call-compatible."""
+    prog = rep.prog
+    b = rep.need(prog.fn("ir::function::args_from_ty_and_cursor"), "ir::function::args_from_ty_and_cursor")
+    tws = [c for c in b.calls(lambda n: n["k"] == "MCall" and n["name"] in ("take_while", "zip", "zip_longest"))]
+    rep.need(tws, "the pairing of cursor arguments with type arguments")
+    either = False
+    for c in b.calls(lambda n: n["k"] == "MCall" and n["name"] == "take_while"):
+        clo = strip(c["args"][0])
+        body = strip(clo.get("body", {}))
+        if body.get("k") == "Binary" and body["op"] == "||" and all("is_some" in b.canon(x, 3) for x in (body["l"], body["r"])):
+            either = True
+    longest = any(c["name"] == "zip_longest" for c in tws)
+    # the type side is padded with None, i.e. cursor arguments beyond the type's own list are accepted
+    padded_type = any(c["name"] == "zip" and "repeat" in b.canon(c["args"][0], 8) for c in tws)
+    rep.check(not ((either and padded_type) or longest), "fnsig-args:cursor-args-beyond-type-args@args_from_ty_and_cursor",
+              "the pairing continues while either the cursor or the type still has an argument, so cursor arguments beyond the type's own "
+              "parameter list become parameters (`int (*get(int a, int b))(char)` returns `fn(a: c_char, b: c_int)`)", b.loc(tws[0]))
